@@ -66,17 +66,25 @@ func (m *monC16) Step(h *History, st *Step) []Violation {
 		f := flowsOfSettlement(st, a)
 		recv := map[string]*big.Int{}
 		distributed := new(big.Int)
+		auctioneerBids := false
 		for _, bd := range r.Bidders {
 			got := zeroIfNil(f.S[bd])
-			if bd == a.Auctioneer { // also receives the unsold remainder: take the reference allocation
-				got = zeroIfNil(r.Alloc[bd])
+			if bd == a.Auctioneer {
+				auctioneerBids = true
 			}
 			recv[bd] = got
 			distributed.Add(distributed, got)
 		}
-		// the clearing price that was used: a recorded bid price at which every bidder's capped demand
-		// equals what it received (there may be several; none when the allocation itself is wrong,
-		// which is C03's business, not C16's)
+		if auctioneerBids {
+			// the auctioneer's own allocation cannot be told apart from the unsold remainder it also
+			// receives from the same escrow: this settlement is not judged
+			h.Label("c16:skipped-auctioneer-bids-in-own-auction")
+			ranQueries = true
+			continue
+		}
+		// the clearing price that was used: a recorded bid price that is consistent with the observed
+		// transfers (what each bidder received and paid); there may be several, or none when the
+		// settlement itself is inconsistent, which is the business of C03 / C04, not of C16
 		pub := zeroIfNil(tr.Post.MatchedPriceM)
 		var candidates []*big.Int
 		seen := map[string]bool{}
@@ -87,9 +95,11 @@ func (m *monC16) Step(h *History, st *Step) []Violation {
 			seen[b.PriceM.String()] = true
 			ok := true
 			for _, bd := range r.Bidders {
-				_, _, _, _, asked := PayBounds(rec.Bids, bd, rec.PayDenom, b.PriceM, recv[bd])
-				capped := bmin(asked, zeroIfNil(rec.Caps[bd]))
-				if capped.Cmp(recv[bd]) != 0 {
+				// consistent with the observed money flows: the bidder received no more than it asked
+				// for at that price and paid price*quantity within the rounding bounds
+				lo, hi, _, eligible, asked := PayBounds(rec.Bids, bd, rec.PayDenom, b.PriceM, recv[bd])
+				paid := bsub(flowOf(h.InP, a.ID, bd), zeroIfNil(f.P[bd]))
+				if recv[bd].Cmp(asked) > 0 || (recv[bd].Sign() > 0 && (eligible == 0 || paid.Cmp(lo) < 0 || paid.Cmp(hi) > 0)) || (recv[bd].Sign() == 0 && paid.Sign() != 0) {
 					ok = false
 					break
 				}
